@@ -1000,6 +1000,29 @@ pub fn unobtainable_cases(report: &mut Report, id: &str) -> u64 {
             }
         }
     }
+    // other ways in which prefix data cannot be obtained: an error answer (not "no such key") to a route query,
+    // a route-set or filter-set the IRR does not know. A smaller or empty set would shrink / empty the policy.
+    let more: Vec<(&str, &str, Plan)> = vec![
+        ("F answer to an IPv4 route query", "AS65002", Plan { faults: vec![], fault_on_query: vec![("!gAS65002".into(), Fault::Other)] }),
+        ("F answer to an IPv6 route query", "AS65001", Plan { faults: vec![], fault_on_query: vec![("!6AS65001".into(), Fault::Other)] }),
+        ("F answer to a member's route query", "AS-A", Plan { faults: vec![], fault_on_query: vec![("!gAS65002".into(), Fault::Other)] }),
+        ("E answer to a member's route query", "(AS-A OR AS-B)", Plan { faults: vec![], fault_on_query: vec![("!6AS65001".into(), Fault::NotUnique)] }),
+        ("unknown route-set", "RS-GONE", Plan::default()),
+        ("unknown route-set in a union", "(RS-GONE OR AS65002)", Plan::default()),
+        ("F answer to the route-set query", "RS-X", Plan { faults: vec![], fault_on_query: vec![("!iRS-X".into(), Fault::Other)] }),
+        ("unknown filter-set", "FLTR-GONE", Plan::default()),
+        ("unknown filter-set in a union", "(FLTR-GONE OR AS65002)", Plan::default()),
+        ("F answer to the filter-set query", "FLTR-F", Plan { faults: vec![], fault_on_query: vec![("!mfilter-set,FLTR-F".into(), Fault::Other)] }),
+    ];
+    for (what, expr, plan) in more {
+        n += 1;
+        irrd.set_plan(plan);
+        let r = evaluate_in_subprocess(irrd.port, expr, Duration::from_secs(5));
+        if let Ok(ranges) = &r {
+            report.violation(&format!("{id}:evaluation-succeeds-without-data:{}", what.replace(' ', "-")), &format!("'{expr}' with {what} evaluated to {} ranges instead of failing", ranges.len()), json!({"expression": expr, "condition": what}));
+        }
+    }
+    irrd.set_plan(Plan::default());
     // the IRR goes away in the middle of an evaluation (TCP reset instead of the answer to a route query):
     // the prefix data could not be obtained, so the evaluation must fail - a smaller set would shrink the policy
     for (q, what) in [("!gAS65002", "connection reset at an IPv4 route query"), ("!6AS65001", "connection reset at an IPv6 route query"), ("!iAS-A", "connection reset at the as-set query")] {
